@@ -79,7 +79,7 @@ pub enum LogKind {
     Rx { msg_type: u8 },
     TimerFired { kind: usize },
     Bmca,
-    StateChange { from: PortState, to: PortState },
+    StateChange { from: PortState, to: PortState, receipt_armed: bool },
     Panic(PanicInfo),
     LostTxTimestamp,
 }
@@ -293,7 +293,8 @@ impl Sim {
             Ok(acts) => {
                 let after = self.nodes[node].node.port_state(port);
                 if before != after {
-                    self.logev(node, port, LogKind::StateChange { from: before, to: after });
+                    let receipt_armed = self.nodes[node].timers[port][T_RECEIPT_TIMER].is_some();
+                    self.logev(node, port, LogKind::StateChange { from: before, to: after, receipt_armed });
                 }
                 Some(acts)
             }
@@ -386,7 +387,8 @@ impl Sim {
                         for (p, b) in before.iter().enumerate() {
                             let after = self.nodes[node].node.port_state(p);
                             if *b != after {
-                                self.logev(node, p, LogKind::StateChange { from: *b, to: after });
+                                let receipt_armed = self.nodes[node].timers[p][T_RECEIPT_TIMER].is_some();
+                                self.logev(node, p, LogKind::StateChange { from: *b, to: after, receipt_armed });
                             }
                         }
                         for (p, acts) in all.into_iter().enumerate() {
